@@ -402,20 +402,55 @@ def r133(ctx, rep):
                          'searchcomplement must construct the same view as search with complement=True '
                          '(search: %s; searchcomplement: %s)' % (norm(a), norm(b)), b)
     bi = ctx.project.need_fn('petl.transform.selects:biselect')
-    # two select(table, *args, **kwargs) calls, the complement entry set to False before the first and True before the second
-    seq = []
+    # biselect returns (select(table, *args, complement=False), select(table, *args, complement=True)) on the same
+    # arguments, however the complement is put into the call (kwargs['complement'] = ..., **dict(kwargs, complement=...),
+    # an explicit keyword)
+    cur = None          # current constant of kwargs['complement']
+    results = {}        # local name -> (argument text, complement)
+    ret = None
+
+    def describe(call):
+        comp = cur
+        rest = []
+        for a0 in call.args:
+            rest.append(norm(a0))
+        for k in call.keywords:
+            if k.arg == 'complement' and isinstance(k.value, ast.Constant):
+                comp = k.value.value
+            elif k.arg is None and isinstance(k.value, ast.Call) and norm(k.value.func) == 'dict':
+                inner = [kk for kk in k.value.keywords if kk.arg == 'complement' and isinstance(kk.value, ast.Constant)]
+                if inner:
+                    comp = inner[0].value.value
+                rest.append('**' + ', '.join(norm(x) for x in k.value.args))
+            elif k.arg is None:
+                rest.append('**' + norm(k.value))
+            else:
+                rest.append('%s=%s' % (k.arg, norm(k.value)))
+        return (tuple(rest), comp)
     for st in bi.node.body:
         if isinstance(st, ast.Assign) and isinstance(st.targets[0], ast.Subscript) and \
                 norm(st.targets[0]) == "kwargs['complement']" and isinstance(st.value, ast.Constant):
-            seq.append(('set', st.value.value))
-        elif isinstance(st, ast.Assign) and isinstance(st.value, ast.Call) and norm(st.value.func) == 'select':
-            seq.append(('select', norm(st.value)))
-    want = [('set', False), ('select', 'select(table, *args, **kwargs)'), ('set', True),
-            ('select', 'select(table, *args, **kwargs)')]
-    if seq == want:
+            cur = st.value.value
+        elif isinstance(st, ast.Assign) and isinstance(st.value, ast.Call) and norm(st.value.func) == 'select' and \
+                isinstance(st.targets[0], ast.Name):
+            results[st.targets[0].id] = describe(st.value)
+        elif isinstance(st, ast.Return) and isinstance(st.value, ast.Tuple) and len(st.value.elts) == 2:
+            ret = []
+            for e in st.value.elts:
+                if isinstance(e, ast.Name) and e.id in results:
+                    ret.append(results[e.id])
+                elif isinstance(e, ast.Call) and norm(e.func) == 'select':
+                    ret.append(describe(e))
+                else:
+                    ret.append(None)
+    if ret and all(r is not None for r in ret) and ret[0][1] is False and ret[1][1] is True and ret[0][0] == ret[1][0] and \
+            ret[0][0][:2] == ('table', '*args'):
         rep.held('R13.3', bi, 'biselect', 'select(...complement=False), select(...complement=True) on the same arguments', bi.node)
+    elif ret is None or any(r is None for r in (ret or [None])):
+        rep.undecided('R13.3', bi, 'biselect', 'the two selections are not recognised', bi.node)
     else:
-        rep.violated('R13.3', bi, 'biselect', 'expected %s, found %s' % (want, seq), bi.node)
+        rep.violated('R13.3', bi, 'biselect', 'expected (select(table, *args, complement=False), select(table, *args, '
+                     'complement=True)) on the same arguments, found %s' % (ret,), bi.node)
     fc = ctx.project.need_fn('petl.transform.selects:facet')
     calls = [n for n in own_nodes(fc.node) if isinstance(n, ast.Call) and norm(n.func) == 'selecteq']
     if len(calls) == 1 and len(calls[0].args) == 3 and norm(calls[0].args[0]) == 'table' and norm(calls[0].args[1]) == 'key':
